@@ -93,7 +93,8 @@ def edit_history(rnd, o, meta):
     done = []
     for _ in range(rnd.randint(0, 6)):
         op = rnd.choice(["set_thickness", "set_radius", "set_conic", "set_index", "scale", "pickup", "solve",
-                         "image_solve", "update"])
+                         "image_solve", "update", "remove", "insert"])
+        n = sg.num_surfaces
         k = rnd.randint(1, n - 2)
         gname = type(sg.surfaces[k].geometry).__name__
         try:
@@ -118,6 +119,14 @@ def edit_history(rnd, o, meta):
                 o.image_solve()
             elif op == "update":
                 o.update()
+            elif op == "remove" and n > 4 and not len(o.pickups) and not len(o.solves) and k != sg.stop_index:
+                # a surface taken out of the middle: the next surface keeps the medium it was built
+                # with in front of it - whatever the lens is now, it must reload as it is
+                sg.remove_surface(k)
+            elif op == "insert" and 2 <= k and not len(o.pickups) and not len(o.solves):
+                from optiland.materials import IdealMaterial
+                o.add_surface(index=k, radius=G.rnd_radius(rnd, 30.0), thickness=rnd.uniform(0.5, 5.0),
+                              material=IdealMaterial(n=round(rnd.uniform(1.3, 1.9), 3), k=0))
             else:
                 continue
             done.append(op)
